@@ -1,7 +1,8 @@
 SPECIFICATION Spec
-CONSTANTS MaxN = 5 MaxIter = 3 StrictA = FALSE
+CONSTANTS MaxN = 4 MaxIter = 3 StrictA = FALSE GenMod = 29
   AsIs_UnconditionalUnshuffle = FALSE Mut_NoReshuffle = FALSE Mut_FeedUnlabeled = FALSE Mut_InverseMixup = FALSE
-CONSTANT Thresholds <- ThrAll
+CONSTANT Thresholds <- ThrMid
 CONSTANT ShuffleVals <- BothB
 INVARIANT EmitCase
+CONSTRAINT GenKeep
 CHECK_DEADLOCK FALSE
